@@ -18,9 +18,12 @@ import (
 
 	"github.com/nspcc-dev/neo-go/pkg/core"
 	"github.com/nspcc-dev/neo-go/pkg/core/block"
+	"github.com/nspcc-dev/neo-go/pkg/core/fee"
 	"github.com/nspcc-dev/neo-go/pkg/core/native/nativehashes"
 	"github.com/nspcc-dev/neo-go/pkg/core/native/nativeids"
+	"github.com/nspcc-dev/neo-go/pkg/core/native/noderoles"
 	"github.com/nspcc-dev/neo-go/pkg/core/state"
+	"github.com/nspcc-dev/neo-go/pkg/core/transaction"
 	"github.com/nspcc-dev/neo-go/pkg/crypto/keys"
 	"github.com/nspcc-dev/neo-go/pkg/encoding/bigint"
 	"github.com/nspcc-dev/neo-go/pkg/io"
@@ -60,6 +63,11 @@ type Case struct {
 //	               K[1]=3: contract A tryCall(XF.xferFail(token, party K[2], N)): XF transfers, then throws; caught, rolled back;
 //	               K[1]=4: the ENTRY script wraps XF.xferFail(token, party K[2], N) in TRY/CATCH, then sends 1 unit to party K[2];
 //	               K[1]=5: contract A tryCall(XF.voteFail(candidate B)); K[1]=6: XF.vote(candidate B, -1 = unvote); K[1]=7: XF.xferOk(token, party K[2], N)
+//
+//	c05_notary_tx  a NotaryAssisted transaction (NKeys = K[0]) witnessed by a designated notary node and by depositor From.
+//	               B=0: sender is the Notary contract (fees are charged to From's deposit), script = GAS transfer From -> party A of N;
+//	               B=1: same, network fee raised so that the fees consume the WHOLE deposit (record must disappear);
+//	               B=2: same as 0 but the script throws after the transfer; B=3: From is the sender, Notary only a co-signer
 //
 // XF is a small contract of this package (deployed by account 2 in a fixed prologue block 3, party number 22): it accepts any
 // payment, xferOk/xferFail send its own tokens (xferFail throws afterwards), vote/voteFail vote with its own NEO.
@@ -286,6 +294,162 @@ func translate(b *ck.Builder, a ck.Action) (ck.Action, error) {
 	return out, nil
 }
 
+// makeNotaryTx builds a c05_notary_tx against the current state (chainkit has no such kind: the Notary witness needs a
+// signature of a designated notary node in its invocation script).
+func makeNotaryTx(b *ck.Builder, a ck.Action) (*transaction.Transaction, error) {
+	bc := b.N.BC
+	payer := ck.Accounts[((a.From%ck.NAccounts)+ck.NAccounts)%ck.NAccounts]
+	nodes, _, err := bc.GetDesignatedByRole(noderoles.P2PNotary)
+	if err != nil || len(nodes) == 0 {
+		return nil, errors.New("no notary node designated")
+	}
+	node, ok := ck.KeyByPub(nodes[0])
+	if !ok {
+		return nil, errors.New("notary node not in the cast")
+	}
+	bw := io.NewBufBinWriter()
+	emit.AppCall(bw.BinWriter, gasHash, "transfer", callflag.All, payer.Hash, b.PartyHash(a.A), a.N, nil)
+	emit.Opcodes(bw.BinWriter, opcode.DROP)
+	if a.B == 2 {
+		emit.String(bw.BinWriter, "c05 throw")
+		emit.Opcodes(bw.BinWriter, opcode.THROW)
+	}
+	tx := transaction.New(bw.Bytes(), 0)
+	tx.Nonce = a.Nonce
+	tx.ValidUntilBlock = bc.BlockHeight() + 1 + a.VUB%max(1, bc.GetMaxValidUntilBlockIncrement())
+	tx.Attributes = []transaction.Attribute{{Type: transaction.NotaryAssistedT, Value: &transaction.NotaryAssisted{NKeys: uint8(kb(a.K, 0))}}}
+	ns := transaction.Signer{Account: notaryHash, Scopes: transaction.None}
+	ps := transaction.Signer{Account: payer.Hash, Scopes: transaction.Global}
+	ni := 0
+	if a.B == 3 {
+		tx.Signers = []transaction.Signer{ps, ns}
+		ni = 1
+	} else {
+		tx.Signers = []transaction.Signer{ns, ps}
+	}
+	gas, _ := b.TestInvoke(tx)
+	tx.SystemFee = gas
+	sign := func() {
+		nw := io.NewBufBinWriter()
+		emit.Bytes(nw.BinWriter, node.Priv.SignHashable(uint32(ck.Magic), tx))
+		tx.Scripts = make([]transaction.Witness, 2)
+		tx.Scripts[ni] = transaction.Witness{InvocationScript: nw.Bytes(), VerificationScript: []byte{}}
+		tx.Scripts[1-ni] = transaction.Witness{InvocationScript: ck.Single(payer).Invocation(tx), VerificationScript: payer.Ver}
+	}
+	tx.NetworkFee = 1000_0000 // provisional: lets Notary.verify see a covered fee when the deposit is reasonable
+	sign()
+	vgas, err := bc.VerifyWitness(notaryHash, tx, &tx.Scripts[ni], bc.GetMaxVerificationGAS())
+	if err != nil {
+		return nil, fmt.Errorf("notary witness: %w", err)
+	}
+	nf, _ := fee.Calculate(bc.GetBaseExecFee(), payer.Ver)
+	tx.NetworkFee = vgas + nf + int64(io.GetVarSize(tx))*bc.FeePerByte() + bc.CalculateAttributesFee(tx)
+	if a.B == 1 {
+		d := new(state.Deposit)
+		if si := bc.GetStorageItem(nativeids.Notary, append([]byte{prefixDeposit}, payer.Hash.BytesBE()...)); si != nil &&
+			stackitem.DeserializeConvertible(si, d) == nil && d.Amount.IsInt64() && d.Amount.Int64() > tx.SystemFee+tx.NetworkFee {
+			tx.NetworkFee = d.Amount.Int64() - tx.SystemFee
+		}
+	}
+	sign()
+	return tx, nil
+}
+
+func errClass(err error) string {
+	var out []rune
+	for _, r := range err.Error() {
+		if r >= '0' && r <= '9' {
+			break
+		}
+		out = append(out, r)
+		if len(out) >= 44 {
+			break
+		}
+	}
+	return strings.TrimSpace(string(out))
+}
+
+// knownNotaryFee is the key of a finding of this check, repaired in /repo by 1e2923b: with P2PSigExtensions off the
+// NotaryAssisted attribute fee was not part of the required network fee (Blockchain.CalculateAttributesFee) while
+// GAS.OnPersist always deducts it from the amount minted to the primary, which then was negative (Transfer event with a
+// negative amount, or a block the node could not process). The hook is dormant: only if the finding were listed as "known"
+// again would NotaryAssisted transactions not be built on such chains (counted as excluded). Regression replays:
+// /verif/replays/C05/regress/notary-assisted-fee-without-p2psig-*.json.
+const knownNotaryFee = "notary-assisted-fee-without-p2psig"
+
+// buildBlock is chainkit's Builder.BuildBlock extended with the own kinds (same admission discipline: every tx goes through
+// PoolTx of the builder's node, rejected candidates are counted in b.Rejected and not retried).
+func buildBlock(b *ck.Builder, spec ck.BlockSpec, excluded *int) (*block.Block, error) {
+	bc := b.N.BC
+	var txs []*transaction.Transaction
+	for _, a := range spec.Txs {
+		var (
+			tx  *transaction.Transaction
+			err error
+		)
+		if a.Kind == "c05_notary_tx" {
+			if !b.N.Chain.P2PSig && vt.Known(knownNotaryFee) {
+				*excluded++
+				continue
+			}
+			tx, err = makeNotaryTx(b, a)
+		} else {
+			var ta ck.Action
+			if ta, err = translate(b, a); err == nil {
+				tx, err = b.MakeTx(ta)
+			}
+		}
+		if err != nil {
+			b.Rejected["build: "+errClass(err)]++
+			continue
+		}
+		if err := bc.PoolTx(tx); err != nil {
+			b.Rejected["pool: "+errClass(err)]++
+			continue
+		}
+		txs = append(txs, tx)
+	}
+	kept := txs[:0]
+	for _, tx := range txs {
+		if bc.GetMemPool().ContainsKey(tx.Hash()) {
+			kept = append(kept, tx)
+		} else {
+			b.Rejected["evicted by conflict"]++
+		}
+	}
+	txs = kept
+	blk, err := b.NextBlock(txs, spec.TimeD, spec.Nonce, spec.Primary)
+	if err != nil {
+		return nil, err
+	}
+	if err := bc.AddBlock(blk); err != nil {
+		return nil, fmt.Errorf("builder rejected its own block %d: %w", blk.Index, err)
+	}
+	for _, tx := range txs {
+		b.TxHashes = append(b.TxHashes, tx.Hash())
+	}
+	for _, a := range spec.Txs { // as chainkit's trackDeployments
+		if a.Kind != "deploy" {
+			continue
+		}
+		c := ck.KContract(fmt.Sprintf("K%d%s", a.A, a.S), a.A)
+		h := ck.ContractHash(b.PartyHash(a.From), c)
+		if bc.GetContractState(h) == nil {
+			continue
+		}
+		known := false
+		for _, d := range b.Deployed {
+			if d.Hash == h {
+				known = true
+			}
+		}
+		if !known {
+			b.Deployed = append(b.Deployed, ck.Deployed{Hash: h, C: c, Deployer: a.From})
+		}
+	}
+	return blk, nil
+}
+
 // ---- generator ----------------------------------------------------------------------------------------------
 
 type gen struct {
@@ -392,6 +556,9 @@ func (g *gen) notary() {
 	p := g.account("ndep")
 	i := g.ir(0, max(0, g.n-6), "nstart")
 	d := g.ir(2, 6, "ntill")
+	if !g.c.Chain.P2PSig { // no notary node is designated by the bootstrap then
+		g.add(i-1, ck.Action{Kind: "designate", From: g.account("npayer"), A: int(noderoles.P2PNotary), B: g.ir(1, 7, "nkeys")})
+	}
 	g.add(i, ck.Action{Kind: "notary_deposit", From: p, N: int64(g.ir(1, 30, "namt")) * 1_0000_0000, A: d, B: -1})
 	for k := g.ir(0, 2, "ntop"); k > 0; k-- {
 		at := i + g.ir(0, 3, "ntop_d")
@@ -405,6 +572,14 @@ func (g *gen) notary() {
 		default:
 			g.add(at, ck.Action{Kind: "notary_lock", From: p, A: g.ir(0, 6, "nlock")})
 		}
+	}
+	for k := g.ir(0, 3, "nntx"); k > 0; k-- { // notary-assisted transactions paid from a deposit
+		payer := p
+		if g.c.Chain.P2PSig && g.ir(0, 2, "nntx_boot") == 0 {
+			payer = g.ir(0, 1, "nboot") // bootstrap depositors
+		}
+		mode := rapid.SampledFrom([]int{0, 0, 0, 1, 2, 2, 3}).Draw(g.t, "nntx_mode")
+		g.add(i+g.ir(1, 6, "nntx_d"), ck.Action{Kind: "c05_notary_tx", From: payer, A: g.target("nntx_to"), B: mode, N: int64(g.ir(0, 3_0000_0000, "nntx_amt")), K: vt.Bytes{byte(rapid.SampledFrom([]int{0, 0, 1, 2, 3, 3, 40, 255}).Draw(g.t, "nntx_keys"))}})
 	}
 	j := i + d + rapid.SampledFrom([]int{-1, 0, 0, 1, 2, 4}).Draw(g.t, "nwd")
 	to := p
@@ -436,7 +611,7 @@ func (g *gen) callbacks() {
 			}
 			g.add(at, a)
 		case 3, 4, 5:
-			mode := rapid.SampledFrom([]int{0, 1, 2, 3, 3, 3, 4, 4, 5, 5, 6, 6, 7}).Draw(g.t, "cb_tm")
+			mode := rapid.SampledFrom([]int{0, 1, 2, 3, 3, 3, 4, 4, 5, 5, 5, 6, 6, 6, 7}).Draw(g.t, "cb_tm")
 			a := ck.Action{Kind: "c05_try", From: g.account("cb_f"), A: cA, B: g.ir(0, 1, "cb_c2"), N: int64(g.ir(0, 30, "cb_amt"))}
 			if mode == 5 || mode == 6 {
 				a.B = rapid.SampledFrom([]int{-1, 0, 1, 2, 3, 3, 4, 4}).Draw(g.t, "cb_cand")
@@ -566,7 +741,7 @@ func genCase(t *rapid.T) Case {
 			g.governance()
 		}
 	}
-	if c.Chain.P2PSig && g.ir(0, 2, "s_notary") != 0 {
+	if g.ir(0, 2, "s_notary") != 0 {
 		g.notary()
 	}
 	if g.ir(0, 2, "s_cb") != 0 {
@@ -937,7 +1112,8 @@ func collect(bc *core.Blockchain, blk *block.Block) (*blockFacts, error) {
 				return fmt.Errorf("block %d %s: malformed Transfer event: %v %v %v", blk.Index, what, e1, e2, e3)
 			}
 			if amt.Sign() < 0 {
-				return fmt.Errorf("block %d %s: Transfer event with negative amount %s", blk.Index, what, amt)
+				// Auxiliary clause (not in the statement of C05; NEP-17 requires amounts >= 0 and the net-of-events clause presupposes it).
+				return fmt.Errorf("block %d %s: Transfer event with negative amount %s (auxiliary clause: NEP-17 amounts are >= 0)", blk.Index, what, amt)
 			}
 			f.nTransfers++
 			addNet(tok, from, amt, -1)
@@ -950,7 +1126,7 @@ func collect(bc *core.Blockchain, blk *block.Block) (*blockFacts, error) {
 					f.neoMoved[*to] = true
 				}
 			}
-			if tok == 1 && from != nil && *from == notaryHash {
+			if tok == 1 && from != nil && *from == notaryHash && to != nil && isTx { // not the fee burn of a Notary-paid tx
 				f.fromNotary = true
 			}
 			if isTx && from != nil {
@@ -1148,20 +1324,14 @@ func checkCase(c Case, o *vt.Obs) error {
 	}
 	labels := map[string]bool{}
 	nontrivial := false
-	units := 0
+	units, excluded := 0, 0
 	for i, spec := range append([]ck.BlockSpec{prologue}, c.Blocks...) {
 		i-- // -1: prologue
-		tspec := ck.BlockSpec{TimeD: spec.TimeD, Nonce: spec.Nonce, Primary: spec.Primary}
 		byNonce := map[uint32]ck.Action{}
 		for _, a := range spec.Txs {
-			ta, err := translate(b, a)
-			if err != nil {
-				return fmt.Errorf("block spec %d: %v", i, err)
-			}
-			tspec.Txs = append(tspec.Txs, ta)
 			byNonce[a.Nonce] = a
 		}
-		_, blk, err := b.BuildBlock(tspec)
+		blk, err := buildBlock(b, spec, &excluded)
 		if err != nil {
 			return fmt.Errorf("block spec %d: %v", i, err)
 		}
@@ -1277,6 +1447,15 @@ func checkCase(c Case, o *vt.Obs) error {
 		}
 		for _, tx := range blk.Transactions {
 			a, ok := byNonce[tx.Nonce]
+			if ok && a.Kind == "c05_notary_tx" {
+				if !f.haltByNonce[tx.Nonce] {
+					labels["notary-assisted-tx-faulted"] = true
+				}
+				payer := ck.Accounts[((a.From%ck.NAccounts)+ck.NAccounts)%ck.NAccounts].Hash
+				if a.B != 3 && prev.deposits[payer] != nil && cur.deposits[payer] == nil && !f.fromNotary {
+					labels["deposit-consumed-by-fees"] = true
+				}
+			}
 			if !ok || !f.haltByNonce[tx.Nonce] {
 				continue
 			}
@@ -1287,6 +1466,11 @@ func checkCase(c Case, o *vt.Obs) error {
 				}
 				if a.B == 4 {
 					labels["try-wrapped-transfer"] = true
+				}
+			case "c05_notary_tx":
+				labels["notary-assisted-tx"] = true
+				if a.B != 3 {
+					labels["fees-charged-to-deposit"] = true
 				}
 			case "c05_try":
 				switch kb(a.K, 1) {
@@ -1342,6 +1526,10 @@ func checkCase(c Case, o *vt.Obs) error {
 	sort.Strings(rs)
 	for _, k := range rs {
 		o.Label("rejected/" + k)
+	}
+	if excluded > 0 {
+		o.Excluded()
+		o.Label("excluded/" + knownNotaryFee)
 	}
 	if nontrivial {
 		o.NonTrivial()
